@@ -58,6 +58,9 @@ type Check struct {
 	QueryMs     map[string]int    `json:"query_ms"`
 	Solver      string            `json:"solver"`
 	Fallback    string            `json:"fallback"`
+	// MaxViolations overrides the engine's per-harness cap on recorded violations (exploration
+	// stops, truncated, at the cap).
+	MaxViolations int `json:"max_violations"`
 }
 
 type KnownFinding struct {
@@ -317,6 +320,9 @@ func cmdCheck(args []string) int {
 			eng.FallbackSolver = ck.Fallback
 		}
 		eng.Thorough = *tier == "thorough"
+		if ck.MaxViolations > 0 {
+			eng.MaxViolations = ck.MaxViolations
+		}
 		eng.ScheduleAll = ck.ScheduleAll
 		eng.CrossEvery = 16
 		if eng.Thorough {
@@ -639,7 +645,11 @@ func nativeReplay(workDir string, g Group, pkgName string, names []string, harne
 	case strings.Contains(s, "VERIF-PASS"):
 		return "spurious: native run passes"
 	case strings.Contains(s, "panic:") || strings.Contains(s, "fatal error:"):
-		return "reproduced: crash " + firstLine(s[strings.Index(s, "panic:")+0:])
+		i := strings.Index(s, "panic:")
+		if i < 0 {
+			i = strings.Index(s, "fatal error:")
+		}
+		return "reproduced: crash " + firstLine(s[i:])
 	}
 	os.WriteFile(replayPath+".log", out, 0o644)
 	return "replay-failed: see " + replayPath + ".log"
